@@ -482,8 +482,8 @@ class KafkaCodec(object):
             ApiVersionsRequest => [ApiVersionRequest]
                 ApiVersionRequest => ApiKey
         """
-        return cls._encode_message_header(client_id, correlation_id, api_version_request.api_key) + struct.pack(
-            ">i", api_version_request.api_version
+        return cls._encode_message_header(
+            client_id, correlation_id, api_version_request.api_key, api_version=api_version_request.api_version
         )
 
     @classmethod
